@@ -147,6 +147,7 @@ def dict_maps(st, kty, vty):
         smt.add_extra(f"DV.{k}", z3.ForAll([r, kk], w))
     has = st.hmap(f"DH.{k}", smt.Int, z3.ArraySort(kty.sort(), smt.Bool))
     val = st.hmap(f"DV.{k}", smt.Int, z3.ArraySort(kty.sort(), vty.sort()))
+    st.hmap(f"DSZ.{k}", smt.Int, smt.Int)  # len(d): declared together with the other two maps of the dict type
     return f"DH.{k}", has, f"DV.{k}", val
 
 
